@@ -122,6 +122,23 @@ def run_case(case, workdir):
                             and np.shape(val["y"]) == ey.shape and np.allclose(val["y"], ey, rtol=1e-12, atol=1e-12 * ref.dx[L][1])):
                         rec.fail("coordinates", sub, "x/y are not the cell centres of the grid")
                     rec.outcome(h64([dh, fl, limit, [zlib_crc(val.get(n)) for n in want]]))
+    # histories on ONE Mandoline object: the second and third call must return what a fresh object returns
+    for serial in (True, False):
+        with vpool.controlled():
+            with poisoned(MODS, 0):
+                def hist():
+                    m = Mandoline(path, fields=["all"], serial=serial, verbose=0)
+                    return [m.slice(fformat="return") for _ in range(3)]
+                st, val = call(hist)
+        rec.exe([dh, "history", serial], nontrivial=True, trans=3)
+        sub = {"history": "three slice() calls on one Mandoline object", "serial": serial}
+        if st == "exc":
+            rec.fail("history_raised", sub, exc_text(val))
+        else:
+            cov, lvl = ref.covering(with_level=True)
+            for k, r in enumerate(val):
+                if not all(bits_equal(r[nm], cov[..., names.index(nm)].T) for nm in names) or not np.array_equal(np.asarray(r["grid_level"]), lvl.T):
+                    rec.fail("history_dependent", dict(sub, call=k), "call %d on the same object differs from the covering grid" % k)
     rec.sample({"desc": desc, "ops": "slice(fformat='return') x field lists x limits x serial/parallel"})
     return rec.result()
 
